@@ -93,6 +93,7 @@ func (c *Ctx) e4Service() bool {
 		s    *absint.Slice
 		pos  string
 		fn   string
+		a    *absint.Analyzer // the analyzer that produced s: base ids are only meaningful within it
 	}
 	var observations []obs
 	// The reader hands parse() a window of the buffer it passes to Read on every iteration:
@@ -178,24 +179,21 @@ func (c *Ctx) e4Service() bool {
 			c.mu.Lock()
 			defer c.mu.Unlock()
 			if s, ok := args[1].(*absint.Slice); ok {
-				observations = append(observations, obs{"raw frame bytes (TerminalData)", s, pos, caller})
+				observations = append(observations, obs{"raw frame bytes (TerminalData)", s, pos, caller, a})
 			}
 			jt := args[0]
 			pt := newMsg.Params[0].Type()
 			if b, ok := findField(a, st, jt, pt, []string{"Body"}).(*absint.Slice); ok {
-				observations = append(observations, obs{"Body", b, pos, caller})
+				observations = append(observations, obs{"Body", b, pos, caller, a})
 			}
 			if ph, ok := findField(a, st, jt, pt, []string{"Header", "*", "bcdTerminalPhoneNo"}).(*absint.Slice); ok {
-				observations = append(observations, obs{"BCD phone (used to address replies)", ph, pos, caller})
+				observations = append(observations, obs{"BCD phone (used to address replies)", ph, pos, caller, a})
 			}
 		}
 	})
+	// every entry is analysed by its own analyzer with its own numbering of buffers: an observation is judged against the
+	// reuse marks of the analyzer that produced it (merging the tables would let unrelated ids collide)
 	rr := results[0]
-	for _, r2 := range results[1:] {
-		for id, why := range r2.A.Reused {
-			rr.A.Reused[id] = why
-		}
-	}
 	for _, r2 := range results {
 		for _, u := range dedupe(r2.Undecided) {
 			R.Add("E1.undecided", shortFn(r2.Fn)+" / "+u, "", report.Undecided, u)
@@ -208,7 +206,7 @@ func (c *Ctx) e4Service() bool {
 		key := fmt.Sprintf("%s / %s", o.fn, o.what)
 		okKeys[key] = true
 		for id, b := range absint.AliasClosure(o.s.Base) {
-			if why, reused := a.Reused[id]; reused {
+			if why, reused := o.a.Reused[id]; reused {
 				agg[key] = fmt.Sprintf("%s of the message created at %s shares its backing array with %s: %s", o.what, o.pos, b.Desc, why)
 			}
 		}
@@ -226,8 +224,10 @@ func (c *Ctx) e4Service() bool {
 		}
 	}
 	var reasons []string
-	for _, w := range a.Reused {
-		reasons = append(reasons, w)
+	for _, r2 := range results {
+		for _, w := range r2.A.Reused {
+			reasons = append(reasons, w)
+		}
 	}
 	sort.Strings(reasons)
 	R.Notes["reused_buffers"] = dedupe(reasons)
